@@ -245,9 +245,11 @@ Alpha profileFor(const std::string& mode, char level) {
     if (level == 'W') {        // DESIGN C07 alphabet
       a.kinds = { 0, 1, 2, 3 }; a.defs = range(14); a.exprDefs = range(14); a.names = { 0, 1, 2, 3, 4 };
       a.termTexts = { 0, 1, 2, 3, 4 }; a.defTexts = { 0, 1, 2, 3, 4 }; a.convs = { 0, 2 }; a.bulks = { 0, 1 };
+      a.recUid = { 0 }; a.recAlias = { 0, 5 }; a.recKind = { 0, 1 };   // single-record InsertCopy (its own code path: Schema::Insert)
     } else if (level == 'M') { // one representative per shortcut
       a.kinds = { 0, 1, 2 }; a.defs = { 0, 1, 2, 4, 12 }; a.exprDefs = { 1, 2, 3, 4, 6, 9, 13 }; a.names = { 0, 2 };
       a.termTexts = { 2, 3 }; a.defTexts = { 3 }; a.convs = { 2 }; a.bulks = { 0 }; a.seedSchemas = 4;
+      a.recUid = { 0 }; a.recAlias = { 5 }; a.recKind = { 0, 1 };
     } else {                   // 'N': deep and narrow
       a.kinds = { 1 }; a.defs = { 1, 4 }; a.exprDefs = { 1, 3, 4 }; a.names = { 2 }; a.subst = { 0 };
       a.termTexts = { 3 }; a.defTexts = {}; a.convs = {}; a.bulks = {}; a.move = false; a.seedSchemas = 2;
@@ -409,7 +411,7 @@ struct SchemaSys {
       case MOVE: return "MoveBefore(" + I(op.a) + "," + I(op.b) + "|end)";
       case INSBULK: return "InsertCopy(bulk" + std::to_string(op.a) + ")";
       case RESET: return "ResetAliases()";
-      case INSREC: return std::string("InsertCopy(record uid:") + (op.a ? "colliding" : "fresh") + " alias-class" + std::to_string(op.b) + " kind:" + (op.c ? "base" : "term") + ")";
+      case INSREC: return std::string("InsertCopy(record uid:") + (op.a ? "colliding" : "fresh") + " alias-class" + std::to_string(op.b) + (op.b == 5 ? "(mentioned-but-missing)" : "") + " kind:" + (op.c ? "base" : "term") + ")";
       case INSFROM: return "InsertCopy(other" + std::to_string(op.a) + "[" + std::to_string(op.b) + "])";
       case INSFROMBULK: return "InsertCopy(other" + std::to_string(op.a) + "[all])";
       case LOAD: return "Load(rec" + std::to_string(op.a) + ")";
@@ -450,7 +452,9 @@ struct SchemaSys {
         std::string alias;
         switch (op.b) { case 0: alias = std::string(1, L) + "7"; break;
           case 1: { alias = std::string(1, L) + "1"; for (auto u : lst) if (f.Contains(u) && letterOf(f.GetRS(u).type) == L) { alias = f.GetRS(u).alias; break; } break; }  // colliding
-          case 2: alias = "Q7"; break; case 3: alias = base ? "D7" : "X7"; break; default: alias = ""; break; }
+          case 2: alias = "Q7"; break; case 3: alias = base ? "D7" : "X7"; break;
+          case 5: alias = base ? "X9" : "D2"; break;   // a name that definitions of the pool mention while it is missing (forward reference repaired by the insertion)
+          default: alias = ""; break; }
         f.InsertCopy(mkRec(uid, alias, base ? CstType::base : CstType::term, base ? "" : "X1", "t")); break; }
       case INSFROM: { RSForm g; buildOther(g, op.a); const auto gl = listOf(g); if (op.b >= 0 && op.b < static_cast<int>(gl.size())) f.InsertCopy(gl[static_cast<size_t>(op.b)], g.Core()); break; }
       case INSFROMBULK: { RSForm g; buildOther(g, op.a); f.InsertCopy(listOf(g), g.Core()); break; }
